@@ -141,7 +141,7 @@ def mutations(doc):
                     for mut in (s.lstrip('/~') or 'rel', s + '/../x', '/a/../b', s + '//', s + '/.', '/./' + s.lstrip('/~'), '../x', '~x/' + s.lstrip('/~')):
                         out.append(('path:%s' % mut[:12], set_at(doc, path, S(mut))))
                 if s in ('36h', '1d'):
-                    for mut in ('0h', '36', 'h', '1w', '-1d', '1.5h', ' 1d', '1D'):
+                    for mut in ('0h', '36', 'h', '1w', '-1d', '1.5h', ' 1d', '1D', '1day', '1h30m', '3d ', '2m0', '10hours', '1d\n', '1dd', '٣d'):
                         out.append(('duration:%s' % mut, set_at(doc, path, S(mut))))
                 if 'keep' in s:
                     for mut in ('* bad', '+', '- [z-a]', '- {a', '-x', '+ ok\n  # c\n\n- y'):
@@ -158,6 +158,15 @@ def mutations(doc):
                 out.append(('list->string', set_at(doc, path, S('x'))))
                 if node['l']:
                     out.append(('duplicate-element', set_at(doc, path, L(*(node['l'] + [copy.deepcopy(node['l'][0])])))))
+                    first = node['l'][0]
+                    if first is not None and 'o' in first and any(k == 'name' for k, _ in first['o']):
+                        # the same backup name again, with another storage path / in another position
+                        other = copy.deepcopy(first)
+                        for kv in other['o']:
+                            if kv[0] == 'path' and kv[1] is not None and 's' in kv[1]:
+                                kv[1] = S(kv[1]['s'].rstrip('/') + '-other')
+                        out.append(('duplicate-name-other-path', set_at(doc, path, L(*(node['l'] + [other])))))
+                        out.append(('duplicate-name-other-path-first', set_at(doc, path, L(*([other] + node['l'])))))
     return out
 
 
@@ -241,7 +250,7 @@ def well_formed(doc):
                 return False
             if 'max_time_without_backups' in u:
                 d = u['max_time_without_backups']
-                if d is None or 's' not in d or not re.match(r'^[1-9][0-9]*[mhd]$', d['s']):
+                if d is None or 's' not in d or not re.fullmatch(r'[1-9][0-9]*[mhd]', d['s'], re.A):
                     return False
     return len(set(names)) == len(names)
 
